@@ -490,14 +490,33 @@ func rulePANIC1(c *Ctx) {
 		})
 	}
 	c.Floor("explicit panic sites", n, 30)
-	// budget: no function gains panic sites relative to the reviewed tree
-	for _, fn := range sortedKeys(counts) {
-		budget, known := panicBudgetTable[fn]
-		if !known {
-			c.Violation("panic-budget:"+fn, p.Func(fn).Pos(), fmt.Sprintf("function has %d panic site(s) but had none when the panics were reviewed", counts[fn]))
-			continue
+	// budget: no package gains panic sites relative to the reviewed tree (per package, so that
+	// moving a panic into an extracted helper is not news; every site is classified above)
+	pkgOf := func(fn string) string {
+		if i := strings.Index(fn, "."); i > 0 {
+			return fn[:i]
 		}
-		c.Oblige("panic-budget:"+fn, p.Func(fn).Pos(), counts[fn] <= budget, fmt.Sprintf("function has %d panic sites, %d were reviewed", counts[fn], budget))
+		return fn
+	}
+	reviewed, actual := map[string]int{}, map[string]int{}
+	for fn, b := range panicBudgetTable {
+		reviewed[pkgOf(fn)] += b
+	}
+	for fn, k := range counts {
+		actual[pkgOf(fn)] += k
+	}
+	for _, pk := range sortedKeys(actual) {
+		detail := ""
+		if actual[pk] > reviewed[pk] {
+			var grown []string
+			for _, fn := range sortedKeys(counts) {
+				if pkgOf(fn) == pk && counts[fn] > panicBudgetTable[fn] {
+					grown = append(grown, fmt.Sprintf("%s (%d, reviewed %d)", fn, counts[fn], panicBudgetTable[fn]))
+				}
+			}
+			detail = fmt.Sprintf("package %s has %d explicit panic sites, %d were reviewed; functions with more sites than reviewed: %s", pk, actual[pk], reviewed[pk], strings.Join(grown, ", "))
+		}
+		c.Oblige("panic-budget:"+pk, token.NoPos, actual[pk] <= reviewed[pk], detail)
 	}
 }
 
